@@ -252,11 +252,104 @@ class SBytes:
     def __format__(self, spec):
         return repr(self)
 
+    def find(self, sub, start=0, end=None):
+        p = [sub] if _real_isinstance(sub, (_real_int, SymInt)) else SBytes._seq(sub)
+        n, m = _real_len(self.items), _real_len(p)
+        start = self._idx(start) if start is not None else 0
+        end = n if end is None else self._idx(end)
+        if start < 0:
+            start = max(0, n + start)
+        if end < 0:
+            end = max(0, n + end)
+        end = min(end, n)
+        for i in range(start, end - m + 1):
+            if bool(sym_and(*[self.items[i + j] == p[j] for j in range(m)])):
+                return i
+        return -1
+
+    def index(self, sub, start=0, end=None):
+        r = self.find(sub, start, end)
+        if r < 0:
+            raise ValueError("subsection not found")
+        return r
+
+    def __mul__(self, k):
+        return SBytes(self.items * k, self.mutable)
+
     def startswith(self, prefix):
         p = SBytes._seq(prefix)
         if _real_len(p) > _real_len(self.items):
             return False
         return bool(SBytes(self.items[:_real_len(p)]) == SBytes(p))
+
+
+class SView(SBytes):
+    """memoryview stand-in: a live window onto another SBytes (reads follow later writes to the base, as with a real
+    memoryview); slicing a view gives a view; bytes()/bytearray() of a view copy"""
+    __slots__ = ("base", "start", "stop")
+
+    def __init__(self, base, start=0, stop=None):
+        while _real_isinstance(base, SView):
+            start, stop = base.start + start, (base.start + (stop if stop is not None else _real_len(base)))
+            base = base.base
+        self.base = base
+        self.start = start
+        self.stop = _real_len(base.items) if stop is None else stop
+        self.mutable = base.mutable
+
+    @property
+    def items(self):
+        return self.base.items[self.start:self.stop]
+
+    @items.setter
+    def items(self, v):
+        raise TypeError("cannot replace the content of a view")
+
+    def __len__(self):
+        return max(0, min(self.stop, _real_len(self.base.items)) - self.start)
+
+    def __getitem__(self, i):
+        if _real_isinstance(i, slice):
+            n = _real_len(self)
+            a, b, st = slice(*(self._idx(v) if v is not None else None for v in (i.start, i.stop, i.step))).indices(n)
+            if st != 1:
+                return SBytes(self.items[i], self.mutable)
+            return SView(self.base, self.start + a, self.start + max(a, b))
+        return SBytes.__getitem__(self, i)
+
+    def __setitem__(self, i, v):
+        if not self.mutable:
+            raise TypeError("cannot modify read-only memory")
+        if _real_isinstance(i, slice):
+            raise EngineLimit("slice assignment through a view")
+        i = self._idx(i)
+        if i < 0:
+            i += _real_len(self)
+        self.base.items[self.start + i] = SBytes._chk(v)
+
+    def tobytes(self):
+        return SBytes(self.items, False)
+
+    def release(self):
+        pass
+
+    def _need_mutable(self, what):
+        raise AttributeError("'memoryview' object has no attribute '%s'" % what)
+
+    def decode(self, *a, **k):
+        raise AttributeError("'memoryview' object has no attribute 'decode'")
+
+    def hex(self, *a, **k):
+        return SBytes(self.items, False).hex(*a, **k)
+
+    def __hash__(self):
+        raise EngineLimit("hash of a view")
+
+
+def sym_memoryview(obj):
+    if _real_isinstance(obj, SBytes):
+        return SView(obj)
+    return memoryview(obj)
 
 
 class SymStr:
@@ -354,15 +447,36 @@ class SymStr:
     def to_int(self):
         """int(str) for ASCII decimal text: optional surrounding whitespace and sign are NOT modelled
         unless the text is all digits (the library calls isdigit() first)"""
-        it = self._ascii_items()
+        it = list(self._ascii_items())
+
+        def ws(c):
+            return bool(((c >= 9) & (c <= 13)) | ((c >= 28) & (c <= 32)))
+
+        def bad():
+            raise ValueError("invalid literal for int() with base 10 (symbolic text)")
+        # int(str): surrounding whitespace, one optional sign, digits with single underscores between digits
+        while it and ws(it[0]):
+            it.pop(0)
+        while it and ws(it[-1]):
+            it.pop()
+        neg = False
+        if it and bool((it[0] == 43) | (it[0] == 45)):
+            neg = bool(it[0] == 45)
+            it.pop(0)
         if not it:
-            raise ValueError("invalid literal for int() with base 10: ''")
-        v = 0
-        for c in it:
-            if not bool((c >= 48) & (c <= 57)):
-                raise EngineLimit("int() of text that is not all digits")
-            v = v * 10 + (c - 48)
-        return v
+            bad()
+        v, prev_digit = 0, False
+        for k, c in enumerate(it):
+            if bool((c >= 48) & (c <= 57)):
+                v = v * 10 + (c - 48)
+                prev_digit = True
+            elif bool(c == 95) and prev_digit and k + 1 < _real_len(it):
+                prev_digit = False
+            else:
+                bad()
+        if not prev_digit:
+            bad()
+        return -v if neg else v
 
     def readline_split(self):
         """split at the first newline: returns (line incl. newline, rest)"""
@@ -383,6 +497,8 @@ def _has_sym(seq):
 
 class _BytesMeta(type):
     def __instancecheck__(cls, obj):
+        if _real_isinstance(obj, SView):
+            return False
         if _real_isinstance(obj, SBytes):
             return not obj.mutable
         return _real_isinstance(obj, _real_bytes)
@@ -412,6 +528,8 @@ class sym_bytes(metaclass=_BytesMeta):
 
 class _BytearrayMeta(type):
     def __instancecheck__(cls, obj):
+        if _real_isinstance(obj, SView):
+            return False
         if _real_isinstance(obj, SBytes):
             return obj.mutable
         return _real_isinstance(obj, _real_bytearray)
@@ -538,6 +656,8 @@ def sym_isinstance(obj, cls):
         return _real_isinstance(obj, sym_bool)
     if cls is _real_str:
         return _real_isinstance(obj, (_real_str, SymStr))
+    if cls is memoryview:
+        return _real_isinstance(obj, (memoryview, SView))
     if cls is float:
         from .fp import SymFloat
         return _real_isinstance(obj, (float, SymFloat))
